@@ -276,7 +276,8 @@ def draw_order(data, tier):
     case['order'] = data.draw(st.sampled_from(['2nd', '4th']))
     case['terms1'] = HG.draw_hamiltonian(data, case['fam'], case['N'], tier, complex_ok=False)
     case.update({'T': data.draw(st.sampled_from([0.4, 0.8])), 'dt': data.draw(st.sampled_from([0.2, 0.4, 0.1])),
-                 'omega': data.draw(st.sampled_from([3.0, 5.0, 2.0])), 'gauge': 'first', 'factor': 1})
+                 'omega': data.draw(st.sampled_from([3.0, 5.0, 2.0])), 'gauge': 'first', 'factor': 1,
+                 'frac': data.draw(st.sampled_from([0.3, 0.0, 0.3, 0.4]))})    # requested dt = T / (k - frac): does not divide the interval
     return case
 
 
@@ -308,17 +309,25 @@ def execute_order(case):
         A2 = H0d + f((k + c2) * h) * H1d
         ref = sla.expm(-1j * h * (a2 * A1 + a1 * A2)) @ ref
         ref = sla.expm(-1j * h * (a1 * A1 + a2 * A2)) @ ref
+    frac = case.get('frac', 0.0)
+
     def err_at(dt):
+        # dt = T / k is turned into the request T / (k - frac) (0 <= frac < 0.5): tdvp_ must still take k equal steps of T / k,
+        # also after halving (2k - frac rounds up to 2k), and evaluate H(t) at the mid-points of the steps it actually takes
+        k = max(1, int(round(T / dt)))
+        req = T / (k - frac) if k - frac > 0 else dt
         psi = psi0.copy()
         Ht = lambda t: [H0, f(t) * H1]
-        for out in mps.tdvp_(psi, Ht, times=(0, T), dt=dt, u=1j, method=case['method'], order=case['order'],
+        for out in mps.tdvp_(psi, Ht, times=(0, T), dt=req, u=1j, method=case['method'], order=case['order'],
                              opts_expmv={'hermitian': True, 'tol': 1e-13}, opts_svd={'tol': 1e-14}, normalize=True):
             if out.time_independent is not False:
                 raise Violation('tdvp:time_independent_flag', f'{out} for a callable H')
+            if out.steps != k or abs(out.dt - T / k) > 1e-12:
+                raise Violation('tdvp:steps_dt', f'requested dt = {req} on an interval {T}: {out.steps} steps of {out.dt}, expected {k} steps of {T / k}')
         return np.linalg.norm(G.mps_dense(psi, sp) - ref)
 
     p = 2 if case['order'] == '2nd' else 4
-    labels = ['order:' + case['order'], 'method:' + case['method']]
+    labels = ['order:' + case['order'], 'method:' + case['method'], 'dt_divides_interval' if frac == 0 else 'dt_does_not_divide_interval']
     # step sizes dt, dt/2, dt/4, ...: the first one whose error enters the window [1e-6, 1e-3] is compared with its half; a low ratio
     # must be confirmed by the next halving (two consecutive ratios below 2^(p-1/2)) before it counts, which keeps pre-asymptotic
     # flukes at coarse steps from raising an alarm
